@@ -13,6 +13,12 @@ def run(prop):
     if prop == "C05":
         import cases_family
         return cases_family.c05()
+    if prop == "C04":
+        import cases_family
+        return cases_family.c04()
+    if prop == "C07":
+        import cases_family
+        return cases_family.c07()
     if prop == "C19":
         import cases_family
         return cases_family.c19()
